@@ -393,6 +393,21 @@ const TEMPLATES: &[Template] = &[
     t("type-of-iterator", "x := if {0} { [1] } else { [2.5] }; it := x~; r := match it { q: () -> (bool, int) => 1, q: () -> (bool, float) => 2, => 3, }; return (r, it(), it(), *log)", &["bool"]),
     t("type-of-slice", "a := [{0}, 2.5][{1}:]; r := match a { q: [int] => 1, q: [float] => 2, q: [int|float] => 3, => 4, }; return (r, *log)", &["int", "idx"]),
     t("type-filter-of-constants", "r := [{0}, 2.5, true]~ ? int; return (r $], *log)", &["int"]),
+    // one name on both sides of an operator: identities that hold for ordinary values (x == x, x - x == 0,
+    // x * 0 == 0, x / x == 1 ...) do not hold for NaN, infinities, -0.0 (floats) or fail for 0 (ints);
+    // the name is a constant in one twin and a run-time value in the other
+    t("same-name-float-compare", "x := {0} * {1}; return (x == x, x != x, x < x, x <= x, x >= x, x > x, *log)", &["fx", "fx"]),
+    t("same-name-float-arith", "x := {0} + {1}; return (x - x, x / x, x * 0.0, 0.0 * x, x + 0.0, x - 0.0, 0.0 - x, x * 1.0, x / 1.0, 0.0 / x, *log)", &["fx", "fx"]),
+    t("same-name-float-param", "g := (q: float) -> any { return (q == q, q != q, q - q, q / q, q * 0.0, q <= q) }; return (g({0}), *log)", &["fx"]),
+    t("same-name-union-param", "g := (q: float|int) -> any { return (q == q, q != q, [q] == [q], (q, 1) == (q, 1)) }; return (g({0}), *log)", &["fx"]),
+    t("same-name-container", "x := [{0}, {1}]; y := ({0}, x); s := struct{ a := {1} }; return (x == x, x != x, y == y, y != y, s == s, s != s, x[0] == x[0], y.0 == y.0, s.a == s.a, *log)", &["fx", "fx"]),
+    t("same-name-match", "x := {0}; r := match x { (x) => t(1, 1), => t(2, 2), }; return (r, *log)", &["fx"]),
+    t("same-name-if", "x := {0} / {1}; if x == x { t(1, 1) } else { t(2, 2) }; if x != x { t(3, 3) }; n := mut 0; while x != x && *n < 2 { n += 1 }; return (*n, *log)", &["fx", "fx"]),
+    t("same-name-int-arith", "x := {0} + {1}; return (x - x, x * 0, 0 * x, x & x, x | x, x ^ x, x + 0, x * 1, x << 0, x >> 0, x == x, x != x, x < x, x <= x, *log)", &["int", "int"]),
+    t("same-name-int-div", "x := {0}; return (x OP x, *log)", &["int"]),
+    t("same-name-int-div-one", "x := {0}; return (x / 1, x % 1, x ** 1, x ** 0, 1 ** x, 0 * x, *log)", &["int"]),
+    t("same-name-bool", "x := {0}; y := tb(1, x); return (y && y, y || y, y & y, y | y, y ^ y, y == y, y != y, !y == y, y && !y, y || !y, *log)", &["bool"]),
+    t("same-name-string", "x := {0} + {1}; return (x == x, x != x, x + \"\" == x, [x] == [x], *log)", &["str", "str"]),
     Template {
         name: "uncalled-function",
         body: "g := () -> any { return {0} OP {1} }; return (1, *log)",
@@ -420,6 +435,12 @@ fn hole_values(kind: &str, thorough: bool) -> Vec<(String, Variable, &'static st
         }
         "idx" => [0i64, 1, -1, 2, -2, 3, -3, -4].into_iter().map(|i| (int_lit(i), Variable::Int(i), "int")).collect(),
         "float" => [("0.1", 0.1f64), ("0.2", 0.2), ("0.3", 0.3), ("1e16", 1e16), ("1.0", 1.0), ("(-0.0)", -0.0), ("1e308", 1e308)]
+            .into_iter()
+            .map(|(l, v)| (l.to_string(), Variable::Float(v), "float"))
+            .collect(),
+        // floats on which algebraic identities fail; NaN and the infinities have no literal, the
+        // constant forms are folded divisions
+        "fx" => [("1.5", 1.5f64), ("0.0", 0.0), ("(-0.0)", -0.0), ("(0.0 / 0.0)", f64::NAN), ("(1.0 / 0.0)", f64::INFINITY), ("(-1.0 / 0.0)", f64::NEG_INFINITY)]
             .into_iter()
             .map(|(l, v)| (l.to_string(), Variable::Float(v), "float"))
             .collect(),
